@@ -782,6 +782,15 @@ TOP:
 		fd.mu.Unlock()
 		switch {
 		case 0 < len(goField):
+			// A struct field takes no arguments but the ones the field
+			// declares are checked all the same, a required one that is
+			// missing or a value of the wrong type is an error.
+			if 0 < fd.args.Len() {
+				if _, ea2 := root.formArgs(vars, field, fd); 0 < len(ea2) {
+					ea = append(ea, ea2...)
+					return
+				}
+			}
 			if ov.Kind() == reflect.Ptr {
 				ov = ov.Elem()
 			}
